@@ -207,6 +207,9 @@ pub fn labels(cfg: &RunCfg, r: &SingleResult) -> Vec<String> {
             }
         ),
     ];
+    if !cfg.unwind.is_empty() {
+        l.push("run:fnrefs_dropped_by_contained_panics".into());
+    }
     if cfg.on_clone {
         l.push("run:on_a_clone_of_the_built_graph".into());
     }
